@@ -25,7 +25,11 @@ CONFIG = {
     'trusted_base': ['modelled by hand, tied by correspondence only: control flow of the handlers in serializer.h '
                      '(handler selection conditions, count width, ByteSwap index arithmetic and the swap conditions are '
                      'extracted from the source on every run)',
-                     'std::set / std::map / multi / unordered insert semantics and operator< of the key types (modelled)'],
+                     'std::set / std::map / multi / unordered insert semantics and operator< of the key types (modelled)',
+                     'RowBlockContainer<uint32_t|uint64_t,float>::Save/Load is presented to the driver as the class of its nine '
+                     'members (copies between the container and the tuple are harness code); its Bad-RowBlock-format exception is '
+                     'shown as Read == false; the RowBlock model of the same function is tied to the Ser model by '
+                     'C15_rowblock_is_serializer_class'],
     'partial': [],
 }
 
